@@ -27,11 +27,15 @@ LEVEL = "exploration"
 ENGINE = "threads"
 RUNS = {"quick": 24_000, "thorough": 600_000}
 RULE = ("seeded workloads (1-2 stores, 2-3 tasks x 1-3 operations from consume/regenerate/convert/transfer in both "
-        "directions, optional real regeneration thread on a virtual 1 s timer) x seeded schedules (serial, uniform, "
+        "directions, rarely reset / enter / exit dormancy, optional real regeneration thread on a virtual 1 s timer; a fifth "
+        "of the workloads spend from the shared store through the real call sites CoherentFeedForwardLoop.run and "
+        "QuorumSensing.run_vote) x seeded schedules (serial, uniform, "
         "sticky, pct, lock-biased) with a decision at every source line of metabolism.py and every lock operation; "
         "non-trivial = a run with at least one context switch away from a task that was inside an operation; "
         "distinct = distinct (workload, recorded context-switch list)")
-COMPONENTS = {"real": ["operon_ai.state.metabolism.ATP_Store incl. its regeneration loop"],
+COMPONENTS = {"real": ["operon_ai.state.metabolism.ATP_Store incl. its regeneration loop",
+                       "operon_ai.topology.loops.CoherentFeedForwardLoop, operon_ai.topology.quorum.QuorumSensing and their "
+                       "BioAgents (as call sites of consume in the topology family)"],
               "stub": ["threading.Lock/Event/Thread (sim primitives)", "time.sleep (virtual timer)", "the OS scheduler (seeded scheduler)"]}
 ASSUMPTIONS = ["pre-emption granularity is the source line", "a transfer is two atomic steps (withdraw, deposit), never atomic across two stores",
                "the real store run single-threaded is the sequential specification (C04 pins the sequential semantics)"]
